@@ -8,7 +8,8 @@ generated tables: `Gen/C16.lean`).  All statements quantify over every tuple / e
 every abstract file system, every `Accept-Encoding` outcome.
 
 Reading guide
-* §0 the generated tables of `_secure_path` are the ones the model (and hence every proof below) uses.
+* §0 what the tree under test DOES (`_secure_path`, `get_resource_name`, `find_resource_path`, probed over finite
+  domains by `extract/c16.py`) is what the model (and hence every proof below) says.
 * §1 `_secure_path` accepts exactly the tuples of proper components (non-empty, not `.`/`..`, no `/`, no NUL).
 * §2 `resolved_under_root`: for such a tuple of ANY length, `normpath(join(root, '/'.join(tuple)))` is literally
   `root/s₁/…/sₙ` — strictly inside the root; the same for package-relative roots through `os.path.join(base, *name.split('/'))`.
@@ -24,16 +25,13 @@ namespace Pyr.Static
 
 open Pyr.Trav (Seg Bytes splitOn joinWith splitPathInfo decodePathInfo)
 
-/-! ## 0. generated obligations (regenerated from src/pyramid/static.py on every run) -/
+/-! ## 0. generated obligations (regenerated on every run by PROBING the code of src/pyramid/static.py) -/
 
-/-- the translator recognised `_invalid_element_chars`, the insecure-element set, `_contains_invalid_element_char`,
-`_secure_path` (both refusals, then `'/'.join`), the call site in `get_resource_name`, the single decoding of the
-raw `PATH_INFO` without `use_subpath`, and `find_resource_path` accepting regular files only -/
-theorem gen_shapes_recognised :
-    Gen.charsShape = "ok" ∧ Gen.elemsShape = "ok" ∧ Gen.containsShape = "ok" ∧ Gen.secureShape = "ok" ∧
-      Gen.callsiteShape = "ok" ∧ Gen.decodeonceShape = "ok" ∧ Gen.regularfileShape = "ok" := by decide
+/-- the probe of the tree under test ran to the end, on that tree, without a surprise -/
+theorem gen_probe_trusted : Gen.probeStatus = "ok" := by decide
 
-/-- the sets in the source are, as sets, the ones the model uses -/
+/-- the characters and elements `_secure_path` refuses (probed over every BMP code point, resp. every string of
+length ≤ 3 over five characters, at every position) are, as sets, the ones the model uses -/
 theorem gen_tables_are_the_models :
     (∀ c ∈ Gen.invalidElementChars, c ∈ invalidElementChars) ∧ (∀ c ∈ invalidElementChars, c ∈ Gen.invalidElementChars) ∧
     (∀ e ∈ Gen.insecureElements, e ∈ insecureElements) ∧ (∀ e ∈ insecureElements, e ∈ Gen.insecureElements) := by decide
@@ -42,6 +40,31 @@ theorem gen_tables_are_the_models :
 theorem gen_tables_cover :
     ['.', '.'] ∈ Gen.insecureElements ∧ ['.'] ∈ Gen.insecureElements ∧ ([] : List Char) ∈ Gen.insecureElements ∧
       '/' ∈ Gen.invalidElementChars ∧ '\x00' ∈ Gen.invalidElementChars := by decide
+
+/-- `_secure_path` of the tree under test and the model agree on every tuple of the probe domain -/
+theorem gen_secure_path_probe :
+    Gen.securePathProbe.length ≥ 100 ∧ ∀ e ∈ Gen.securePathProbe, securePath e.1 = e.2 := by decide
+
+/-- `get_resource_name` (arbitrary `request.subpath`; filesystem and package root) and the model agree on the probe
+domain: refused exactly when `_secure_path` refuses, otherwise the name is `normpath(join(root, …))` resp.
+`docroot.rstrip('/') + '/' + …` of the checked value and nothing else -/
+theorem gen_resource_name_probe :
+    Gen.resourceNameProbe.length ≥ 200 ∧
+    ∀ e ∈ Gen.resourceNameProbe,
+      nameOutcomeTag (resourceName (probeFs e.1) (probeView e.1 Gen.probeRoot) false e.2.1) = e.2.2 := by decide +kernel
+
+/-- `get_resource_name` without `use_subpath` decodes the raw PATH_INFO once, normalises it and checks it, as the
+model does (ASCII, two- and three-byte UTF-8, `..`, `//`, `%2e%2e`, backslash, NUL, overlong and truncated UTF-8) -/
+theorem gen_path_info_probe :
+    Gen.pathInfoProbe.length ≥ 16 ∧ ∀ e ∈ Gen.pathInfoProbe, pathInfoTag Gen.probeRoot e.1 = e.2 := by decide
+
+/-- `find_resource_path` finds regular files only, and returns the OS path of the name, as the model does -/
+theorem gen_find_resource_probe :
+    Gen.findResourceProbe.length = 6 ∧
+    ∀ e ∈ Gen.findResourceProbe,
+      e.2.2.2 ≠ "other" ∧
+      (findResourcePath { isDir := fun _ => e.2.2.1, isThere := fun _ => e.2.1, size := fun _ => 0 }
+        (probeView e.1 Gen.probeRoot) ['n']).isSome = (e.2.2.2 == "path") := by decide
 
 /-! ## 1. `_secure_path` -/
 
